@@ -12,7 +12,7 @@ from vlib import symres
 
 PROP = "C33"
 META = {
-    "ready": False,
+    "ready": True,
     "level": "model_checking",
     "technique": "TLA+ spec (declarative GNU ld WrapRule vs operational model of apply_wrapped_symbol_overrides + resolution) checked by TLC; every enumerated configuration replayed into the real linker with GNU ld as reference",
     "level_text": "TLC enumerates all assignments of {defines s, defines __wrap_s, references s / __real_s / __wrap_s (incl. from the defining object, weak references)} to two files (quick) and three files (thorough) of kinds object / archive member / shared object with --wrap=s; each is linked by wild and GNU ld and the binding of every reference, the loaded members and the error class are compared.",
@@ -26,7 +26,7 @@ ASPECTS = ("error", "loaded", "bind")
 
 def run(ctx):
     if ctx.quick:
-        plan = [("mc/SymRes_c33_quick.cfg", 900, 10)]
+        plan = [("mc/SymRes_c33_quick.cfg", 900, 16)]
     else:
         plan = [("mc/SymRes_c33_quick.cfg", 900, 1), ("mc/SymRes_c33_triple.cfg", 2400, 4)]
     cov = symres.run_plan(ctx, PROP, plan, ASPECTS, "ld", skip_load_divergent=OWN)
